@@ -313,7 +313,8 @@ class Evaluator:
                 return sum(self.iterate(args[0]))
             if n == "int":
                 return int(args[0])
-            if n == "max" and all(not isinstance(a, Obj) for a in args):
+            if n == "max" and all(not isinstance(a, Obj) for a in args) and not (
+                    len(args) == 1 and any(isinstance(x, Obj) for x in self.iterate(args[0]))):
                 return max(*args) if len(args) > 1 else max(args[0])
             if n in ("min", "max"):
                 seq = list(args[0]) if len(args) == 1 else list(args)
